@@ -208,6 +208,47 @@ def run(tier, seed):
                 bad.append(dict(failed="off-diagonal force matrix equals (E_i - E_j) d_ij (near-degenerate pair, gap %.3e: F_01=%r, (E_0-E_1) d_01=%r)" % (gap_, float(fm_), float((Eall[0] - Eall[1]) * dc_)), case=gmeta[-1]))
             res.count("gap-floor/" + ("floored" if abs(Eall[1] - Eall[0]) < 1e-10 else "regular"))
             res.case(("tiny", c, xv), True)
+    # user-defined models that keep the arrays they hand out (a constant gradient computed once): computing must not write into them, and
+    # every computed point must satisfy the same relations as for models that build fresh arrays
+    from mudslide.models.electronics import AdiabaticModel_
+    def keeper(Base):
+        class Keeper(Base):
+            def __init__(self, representation="adiabatic", reference=None):
+                Base.__init__(self, representation=representation, reference=reference, nstates=2, ndim=2)
+                self.k = np.array([0.01, 0.004]); self.c = 0.003; self.mass = np.array([2000.0, 3000.0])
+                self.gradient = np.zeros([2, 2, 2]); self.gradient[:, 0, 0] = self.k; self.gradient[:, 1, 1] = -self.k
+                self.buf = np.zeros([2, 2])
+            def V(self, X):
+                e = float(np.dot(self.k, X)); self.buf[:, :] = [[e, self.c], [self.c, -e]]; return self.buf
+            def dV(self, X): return self.gradient
+        return Keeper
+    for Base in (DiabaticModel_, AdiabaticModel_):
+        mk = keeper(Base)(); g0 = mk.gradient.copy(); last = None
+        for j in range(5):
+            X = np.array([rng.uniform(-0.5, 0.5), rng.uniform(-0.5, 0.5)])
+            el = mk.update(X, electronics=last)
+            C_ = el._reference; Vx = np.array(mk.V(X)).copy()
+            wantF = np.array([[-C_[:, i] @ g0[d] @ C_[:, i] for d in range(2)] for i in range(2)])
+            wantFM = -np.einsum("ip,xij,jq->pqx", C_, g0, C_)
+            res.count("user-model-keeping-its-arrays/" + Base.__name__)
+            if not np.array_equal(mk.gradient, g0):
+                bad.append(dict(failed="computing the electronics does not change the model: the gradient array kept by a user-defined model was overwritten (point %d)" % j, case=dict(base=Base.__name__, x=X.tolist()))); break
+            if np.max(np.abs(np.array(el._force) - wantF)) > 1e-14 or np.max(np.abs(el.force_matrix() - wantFM)) > 1e-14 or np.max(np.abs(C_.T @ Vx @ C_ - el.hamiltonian())) > 1e-14:
+                bad.append(dict(failed="forces are minus the expectation value of the gradient in the adiabatic states (user-defined model keeping its gradient array, point %d of a sequence: force %r, expected %r)" % (j, np.array(el._force).tolist(), wantF.tolist()), case=dict(base=Base.__name__, x=X.tolist()))); break
+            last = el
+        res.case(("keeper", Base.__name__), True)
+    # an electronics object computed a second time (compute() is public) holds the quantities of the new position, all of them
+    for name in ("simple", "dual", "super", "vibronic", "modelx"):
+        m, x, _, _ = model_case(rng, name); x = np.array(x, dtype=float); x2 = x + np.array([rng.uniform(0.2, 0.7) for _ in x])
+        e1 = m.update(x); e1.force_matrix(); e1.derivative_coupling_tensor(); r1 = np.array(e1._reference).copy()
+        e1.compute(x2, reference=r1)
+        import copy as _cp
+        prev_ = _cp.copy(m.update(x)); prev_._reference = r1
+        fresh = m.update(x2, electronics=prev_)
+        res.count("recompute-on-same-object/" + name); res.case(("recompute", name, tuple(x)), True)
+        for what, a_, b_ in [("hamiltonian", e1.hamiltonian(), fresh.hamiltonian()), ("force", e1._force, fresh._force), ("derivative coupling", e1._derivative_coupling, fresh._derivative_coupling), ("force matrix", e1.force_matrix(), fresh.force_matrix())]:
+            if not np.array_equal(np.asarray(a_), np.asarray(b_)):
+                bad.append(dict(failed="energies, forces, couplings and force matrix of an electronics object are those of the position it was last computed at (%s after a second compute() differs from a fresh computation by %.3g)" % (what, float(np.max(np.abs(np.asarray(a_) - np.asarray(b_))))), case=dict(model=name, x=x.tolist(), x2=x2.tolist()))); break
     # harmonic model: force = -grad E, save/load round trip
     tmproot = os.path.join(OUT, "tmp", "C05"); shutil.rmtree(tmproot, ignore_errors=True); os.makedirs(tmproot)
     for it in range(per * 2):
@@ -238,6 +279,19 @@ def run(tier, seed):
             fn = os.path.join(tmproot, "h%d.%s" % (it, ext)); hm.to_file(fn); h2 = HarmonicModel.from_file(fn)
             if not (np.array_equal(h2.x0, hm.x0) and h2.E0 == hm.E0 and np.array_equal(h2.H0, hm.H0) and np.array_equal(h2.mass, hm.mass)):
                 bad.append(dict(failed="the harmonic model survives a save/load round trip unchanged (%s)" % ext, case=dict(ndim=nd)))
+    # round trip with values whose shortest decimal form has an exponent and no decimal point (5e-10, 1e+16): the hardest case for text formats
+    for ext in ("json", "yaml"):
+        hx = HarmonicModel([5e-10, -1e-05], 1e-07, [[1e+16, 2e-05], [2e-05, 3e-300]], [1e+22, 7e-07])
+        fn = os.path.join(tmproot, "hx." + ext); hx.to_file(fn); res.count("model/harmonic-roundtrip-exponent-forms")
+        try:
+            h2 = HarmonicModel.from_file(fn); el2 = h2.update(np.array([1e-10, 2e-05]))
+            okx = np.array_equal(np.asarray(h2.x0, dtype=float), hx.x0) and float(h2.E0) == hx.E0 and np.array_equal(np.asarray(h2.H0, dtype=float), hx.H0) and np.array_equal(np.asarray(h2.mass, dtype=float), hx.mass) \
+                  and float(el2.hamiltonian()[0]) == float(hx.update(np.array([1e-10, 2e-05])).hamiltonian()[0])
+            why = "" if okx else "reloaded x0=%r E0=%r" % (h2.x0, h2.E0)
+        except Exception as ex:
+            okx = False; why = "%s: %s" % (type(ex).__name__, ex)
+        if not okx:
+            bad.append(dict(failed="the harmonic model survives a save/load round trip unchanged (%s, values such as 5e-10 and 1e+16: %s)" % (ext, why), case=dict(ext=ext)))
     shutil.rmtree(tmproot, ignore_errors=True)
     # mudslide-surface rows agree with the model object
     from mudslide.surface import surface_main
